@@ -173,6 +173,9 @@ func runJob(j job) result {
 				}
 				for _, s := range allSettings[1:] {
 					for _, cs := range bools {
+						if cs && len(l) > 2 {
+							continue // lists of 3 values meet the non-default settings in reference mode only
+						}
 						for _, hdr := range hdrsForSettings(l, reqShapesIface[shape]) {
 							t.emit(&caseD{Lane: "req", Vals: l, Shape: shape, Hdr: hdr, CS: cs, Cfg: s})
 						}
@@ -231,6 +234,9 @@ func runJob(j job) result {
 				}
 				for _, s := range allSettings[1:] {
 					for _, ss := range bools {
+						if ss && len(l) > 2 {
+							continue
+						}
 						for _, hdr := range hdrsForSettings(l, respShapesIface[shape]) {
 							t.emit(&caseD{Lane: "resp", Vals: l, Shape: shape, Hdr: hdr, SS: ss, Cfg: s})
 						}
@@ -468,7 +474,7 @@ func main() {
 		"list_lengths": "0..3", "request_shapes": reqShapes, "response_shapes": respShapes, "header_sets": hdrNames,
 		"header_crossing": "lists of <= 2 values: all header sets; lists of 3 values: none, shared-with-args, preset-simple (thorough: all); non-default settings: none and typed (lists of 3 values, in the quick tier also of 2 values: none); method-name lane: all (quick tier, lists of 2 values: none, shared-with-args)",
 		"method_names":    len(names), "errors": len(errCases), "decoder_settings": len(allSettings),
-		"settings_crossing": "all 120 LongType x RealType x MapType x StructType x ListType combinations of the decoding side for: lists of <= 2 values in shapes with interface{} destinations (thorough: also lists of 3 quick-alphabet values), lists of <= 1 value in every shape with the typed header set, every error; defaults elsewhere",
+		"settings_crossing": "all 120 LongType x RealType x MapType x StructType x ListType combinations of the decoding side for: lists of <= 2 values in shapes with interface{} destinations (thorough: also lists of 3 quick-alphabet values, in reference mode), lists of <= 1 value in every shape with the typed header set, every error; defaults elsewhere",
 		"modes":             "request: client Simple x header set; response: service Simple x header set x (client Simple x Debug for lists of <= 2 values); errors: service Simple x client Simple x Debug x header set x all settings; hprose client against the jsonrpc service codec (fallback path) for lists of <= 1 value and every error",
 	})
 	run.Assumption("scope hypothesis: argument/result lists of at most 3 values drawn from a reduced alphabet of 12 representative C01 types (9 JSON types); value-level coverage of the serializer is C01's job")
